@@ -338,6 +338,61 @@ def run_c16(facts, rep):
         else:
             rep.ok(R + "(chunk)", "fill_bytes", "refill only at the end of the block; cursor advances by the copied length",
                    facts.loc(p), sample={"refill_sites": len(refills)})
+    # ---- word draws at the refill boundary
+    from r_slotmod import Sym as _Sym, padd as _padd, pconst as _pconst, patom as _patom, pshow as _pshow, atoms_of as _atoms
+    for nm, W in (("next_u32", 4), ("next_u64", 8)):
+        cands = [q for q in facts.hir if q.endswith("BlakeRNG as rand::RngCore>::" + nm) or q.endswith("BlakeRNG::" + nm)]
+        if not cands:
+            continue
+        q = cands[0]
+        rep.fn(q)
+        b = facts.inlined(q)
+        sy = _Sym(facts, b)
+        found = None
+        for x in walk(b):
+            if x.get("k") == "If" and any(y.get("k") in ("MCall", "Inl") and y.get("name") == "refill_buffer" for y in walk(x["th"])):
+                found = x
+        key = "%s/refill" % nm
+        if found is None:
+            rep.unresolved(R + "(chunk)", key, "no refill branch found in %s" % nm, facts.loc(q))
+            continue
+        c = strip(found["c"])
+        if not (c.get("k") == "Bin" and c.get("op") in (">", ">=", "<", "<=")):
+            rep.unresolved(R + "(chunk)", key, "refill condition is not a comparison", facts.loc(q, found))
+            continue
+        def _p(e):
+            r_ = sy.poly(e)
+            e0 = strip(e)
+            if r_ is None and e0.get("k") == "Path" and e0.get("res") != "local":
+                return _patom((e0.get("def") or "const").rsplit("::", 1)[-1])
+            return r_
+        a_, b_ = _p(c["a"]), _p(c["b"])
+        if c["op"] in ("<", "<="):
+            a_, b_ = b_, a_
+        strict = c["op"] in (">", "<")
+        if not isinstance(a_, dict) or not isinstance(b_, dict):
+            rep.unresolved(R + "(chunk)", key, "refill condition is not polynomial", facts.loc(q, found))
+            continue
+        d = _padd(a_, b_, -1)
+        cur = [m for m in d if m and any("buffer_current" in t for t in m)]
+        size = [m for m in d if m and any("BUFFER_SIZE" in t for t in m)]
+        if len(cur) != 1 or d.get(cur[0]) != 1 or len(size) != 1 or d.get(size[0]) != -1 or \
+                any(m not in (cur[0], size[0], ()) for m in d):
+            rep.unresolved(R + "(chunk)", key, "refill condition %s is not `cursor + c > BUFFER_SIZE`" % _pshow(d), facts.loc(q, found))
+            continue
+        k0 = d.get((), 0)
+        # refill iff cursor + k0 (>|>=) SIZE ; exact: refill iff cursor + W > SIZE  <=>  cursor + W - 1 >= SIZE
+        eff = k0 if strict else k0 + 1            # refill iff cursor + eff > SIZE
+        if eff == W:
+            rep.ok(R + "(chunk)", key, "%s refills exactly when fewer than %d bytes are left in the block" % (nm, W), facts.loc(q, found),
+                   sample={"function": q, "width": W})
+        elif eff > W:
+            rep.violation(R + "(chunk)", key, "%s refills when cursor + %d > BUFFER_SIZE, i.e. already when exactly %d byte(s) — a whole "
+                          "word — are left: the last aligned word of every block is skipped by word draws but not by fill_bytes, so the "
+                          "stream a sampler sees differs from the byte stream the seed defines" % (nm, eff, eff - 1), facts.loc(q, found))
+        else:
+            rep.violation(R + "(chunk)", key, "%s refills only when cursor + %d > BUFFER_SIZE: with %d byte(s) left it reads a %d-byte "
+                          "word past the end of the block" % (nm, eff, W - 1, W), facts.loc(q, found))
     # ---- rns consistency
     for nm in ("ternary", "centered_binomial", "uniform"):
         p = "util::rlwe::sample::" + nm
